@@ -26,7 +26,7 @@ LITERAL_WORDS = ["true", "false", "True", "False", "null", "None", "nil", "yes",
 
 KNOWN_KEYS = ["endianess", "endianness", "endian", "byte_order", "mux_count", "mux_signal", "bitstart", "bit_start", "start", "length",
               "scale", "offset", "min", "max", "min_value", "max_value", "unit", "comment", "type", "id", "bus", "device", "period",
-              "name", "services", "dlc", "signed", "is_signed"]
+              "name", "dlc", "signed", "is_signed"]
 
 
 KEYWORD_PREFIXED = ["assist", "asas", "ass5_a", "as_", "format", "forS", "implement", "implcan", "modulo", "models",
